@@ -1694,3 +1694,60 @@ func neverRecovers(c *Ctx, id string) {
 	}
 	c.Check(len(bad) == 0 && nPanic >= 20, id, "never-recovers", 0, fmt.Sprintf("%d fatal exits, no recover() anywhere in the module", nPanic), "the module recovers panics: "+strings.Join(bad, "; ")+" — a fatal condition no longer stops the client")
 }
+
+// rebalanceLockOwners (C11): the lifecycle callbacks of a rebalance (BeforeRebalanceStart … AfterRebalanceEnd,
+// BeforeStreamStop/AfterStreamStop, BeforeStreamStart/AfterStreamStart) run while the rebalance lock is held — taken in
+// Rebalance, released at the end of the timer-driven reopen. Nothing the application may call from such a callback
+// (Commit → Stream.Save, the getters, Close) may take that lock, or the rebalance dead-locks on itself: Lock/TryLock/
+// Unlock on the lock field appear only in the two functions of the hand-off.
+func rebalanceLockOwners(c *Ctx, id string) {
+	w := c.W
+	reb := w.Method("stream", "stream", "Rebalance")
+	c.need(reb != nil, id, "stream.Rebalance")
+	// the lock field: the mutex Rebalance locks
+	var lockField *types.Var
+	allInstrs(reb, func(in ssa.Instruction) {
+		if cc := callOf(in); cc != nil && strings.HasSuffix(calleeName(cc), "Mutex).Lock") && len(cc.Args) == 1 {
+			if f := fieldOfAddr(cc.Args[0]); f != nil {
+				lockField = f
+			}
+		}
+	})
+	c.need(lockField != nil, id, "the mutex Rebalance takes")
+	users := map[*ssa.Function]bool{}
+	n := 0
+	for _, fn := range w.ModFuncs {
+		allInstrs(fn, func(in ssa.Instruction) {
+			cc := callOf(in)
+			if cc == nil || len(cc.Args) < 1 {
+				return
+			}
+			name := calleeName(cc)
+			if !strings.Contains(name, "Mutex).") {
+				return
+			}
+			if fieldOfAddr(cc.Args[0]) == lockField {
+				n++
+				users[rootFn(fn)] = true
+			}
+		})
+	}
+	var bad []string
+	for f := range users {
+		if f != reb && !(f.Signature.Recv() != nil && recvTypeName(f.Signature.Recv().Type()) == "stream" && strings.EqualFold(f.Name(), "rebalance")) {
+			// a helper reached only from the two hand-off functions is part of them
+			only := true
+			for _, cs := range w.callersOf(f) {
+				r := rootFn(cs.Fn)
+				if r != reb && !strings.EqualFold(r.Name(), "rebalance") {
+					only = false
+				}
+			}
+			if !only || len(w.callersOf(f)) == 0 {
+				bad = append(bad, fname(f))
+			}
+		}
+	}
+	sort.Strings(bad)
+	c.Check(n >= 2 && len(bad) == 0, id, "rebalance-lock-owners", reb.Pos(), fmt.Sprintf("%d operations on the rebalance lock, all in the hand-off (Rebalance → timer-driven reopen)", n), "the rebalance lock is taken outside the hand-off: "+strings.Join(bad, ", ")+" — a lifecycle callback that calls it (Commit from BeforeStreamStop, say) dead-locks the rebalance")
+}
